@@ -237,6 +237,12 @@ impl WorldExec {
     /// `sync-timeout`, the helper stays parked and the cache is leaked (it must outlive the parked call).
     pub fn reload_bounded(&mut self) -> String {
         if !self.sync() { return "sync-timeout".into(); }
+        self.reload_call()
+    }
+
+    /// `hot_reload()` on a helper thread, given up (answer `sync-timeout`, cache leaked) when the reloader thread is gone or stays
+    /// silent for `wait_secs`: no engine may hang on a reloader that died.
+    pub fn reload_call(&mut self) -> String {
         if let Fe::Shared(c) = &self.fe {
             let p = &**c as *const AssetCache<MemSource> as usize;
             let (tx, rx) = std::sync::mpsc::channel::<()>();
@@ -493,8 +499,7 @@ impl WorldExec {
             }
             "reload" => {
                 self.sync();
-                if let Fe::Shared(c) = &self.fe { c.hot_reload(); }
-                if self.sync() { "ok".into() } else { "sync-timeout".into() }
+                self.reload_call()
             }
             "enhance" => {
                 // `enhance_hot_reloading` needs a `'static` cache: this one is leaked (harness only)
